@@ -96,3 +96,21 @@ Definition spec_ok (m : smap) (pk : option Z) (o : op) (res : oresult) (m' : sma
   | OIter =>
       m' = m /\ exists l, res = RIter l /\ NoDup (map fst l) /\ Permutation (map snd l) (map Some m)
   end.
+
+(* which plan is valid after a call: a plan stays valid "until the hash table is modified" *)
+Definition next_pk (pk : option Z) (o : op) (res : oresult) : option Z :=
+  match o, res with
+  | OPlan k, _ | OPlanPre k, _ => Some k
+  | OInsert _, RStatus SUCCESS | OInsertAt _, RStatus SUCCESS => None
+  | ORemove _, RRemoved NOT_FOUND _ | OErase _, RRemoved NOT_FOUND _ => pk
+  | ORemove _, _ | OErase _, _ => None
+  | _, _ => pk
+  end.
+
+(* a whole history of calls and results is one the map allows *)
+Fixpoint spec_run (m : smap) (pk : option Z) (cs : list op) (rs : list oresult) : Prop :=
+  match cs, rs with
+  | [], [] => True
+  | c :: cs', r :: rs' => exists m', spec_ok m pk c r m' /\ spec_run m' (next_pk pk c r) cs' rs'
+  | _, _ => False
+  end.
